@@ -118,9 +118,24 @@ void vstub_stereo_decode_mid_only(ec_dec *psRangeDec, opus_int *decode_only_mid)
 #define silk_ResetDecoder verif_ResetDecoder
 #define silk_InitDecoder verif_InitDecoder
 #define silk_Decode verif_Decode
+/* phase markers for the calls made by silk_Decode: 1 silk_decode_frame, 2 silk_stereo_MS_to_LR, 3 / 4 silk_resampler on the
+   state of channel 0 / 1; 0 = silk_Decode itself */
+static opus_int vph_decode_frame(silk_decoder_state *p, ec_dec *rd, opus_int16 *o, opus_int32 *pN, opus_int lf, opus_int cc, int arch)
+{ opus_int r; vrec_phase(1); r = vstub_decode_frame(p, rd, o, pN, lf, cc, arch); vrec_phase(0); return r; }
+static void vph_ms_to_lr(stereo_dec_state *st, opus_int16 x1[], opus_int16 x2[], const opus_int32 pred[], opus_int fs, opus_int fl)
+{ vrec_phase(2); verif_stereo_MS_to_LR(st, x1, x2, pred, fs, fl); vrec_phase(0); }
+static opus_int vph_resampler(int ph, silk_resampler_state_struct *S, opus_int16 out[], const opus_int16 in[], opus_int32 inLen)
+{ opus_int r; vrec_phase(ph); r = verif_resampler(S, out, in, inLen); vrec_phase(0); return r; }
+#undef silk_decode_frame
+#undef silk_stereo_MS_to_LR
+#undef silk_resampler
+#define silk_decode_frame vph_decode_frame
+#define silk_stereo_MS_to_LR vph_ms_to_lr
+#define silk_resampler(S, o, i, n) vph_resampler(3 + ((S) == &channel_state[ 1 ].resampler_state), (S), (o), (i), (n))
 #include "dec_API.c"
 /* accessors for the driver (silk_decoder is private to dec_API.c) */
 silk_decoder_state *verif_dec_channel(void *d, int n) { return &((silk_decoder *)d)->channel_state[n]; }
 stereo_dec_state *verif_dec_stereo(void *d) { return &((silk_decoder *)d)->sStereo; }
 int verif_dec_nch_internal(void *d) { return ((silk_decoder *)d)->nChannelsInternal; }
 int verif_dec_prev_dom(void *d) { return ((silk_decoder *)d)->prev_decode_only_middle; }
+int verif_dec_nch_api(void *d) { return ((silk_decoder *)d)->nChannelsAPI; }
